@@ -495,7 +495,7 @@ def arrive (s : CBelt) (p : MProc) : CBelt :=
                          newReady := s.newReady ++ [e.item.id] }
       let s2 := if s1.ri == .pending then ({ s1 with ri := .trig }).sched s1.now false (.shot .ri s1.riGen) else s1
       ((s2.trigGet).trigPut).endProc p
-    else (({ s with items := rest } : CBelt).endProc p).giveUp
+    else (({ s with items := rest, arrivals := s.arrivals ++ [({ q := p.q, t := s.now, ti := e.totalInt } : Arr)] } : CBelt).endProc p).giveUp
 
 /-- start (or restart after a resume) the timer of `phase` with `rem` left; phase 1 falls through to phase 2,
     phase 2 to the arrival, when nothing is left -/
